@@ -5,19 +5,25 @@ import DEngine.Model.ElectMon
 
 Cluster model: `DEngine.Elect.Cluster` / `step` / `run` (Model/ElectCluster.lean).  Its per-node steps are the
 functions of Model/Elect.lean, which the `elect` correspondence compares with the real `ElectionHandler`, role
-states, `Raft::handle_internal_event` and `Drop for Raft`.  `(run c ls).leaders` is the ghost list of every
-`BecomeLeader(node, term)` that happened.
+states, `Raft::handle_internal_event`, the `SharedState` persister and `Drop for Raft`.
+`(run c ls).leaders` is the ghost list of every `BecomeLeader(node, term)` that happened.
 
-* `ElectionSafetyStatement` — the property over all schedules (message loss / duplication / reordering, crashes,
-  restarts, step-downs) of a cluster with static membership, under the environment assumptions `Env` only
-  (nobody forges grants or AppendEntries, node id 0 does not exist, voter lists are the configured ones).
-  **False for the code as it is**, three independent ways, each replayed on the real code:
-  `election_safety_false_F1` (vote reset by a same-term `BecomeFollower`), `election_safety_false_F2` (vote lost
-  by a crash: hard state only saved in `Drop`), `election_safety_false_F3` (single-node shortcut after expansion).
-* `election_safety_partial` — the property under `Env` plus the exact exclusion of those three triggers
-  (`NoTrigger`), proved by the inductive invariant `Inv` (Lemmas/ElectInv.lean) and `quorum_intersect`.
+History: as found, the property was false three independent ways, each replayed on three real Raft cores:
+F1 (`BecomeFollower` reset the vote without a term change — fixed 65007c0), F2 (hard state saved only in `Drop`
+— fixed c4109f0), F3 (single-node shortcut keyed on `initial_cluster_size` — fixed 16342b6).  The model follows
+the fixed code; the three witness schedules are kept as regressions (`f1_regression` …).
+
+* `election_safety` — **at most one `BecomeLeader` per term on every schedule** (message loss, duplication,
+  reordering, forged-stale vote requests, split votes, step-downs, crashes at any point incl. inside an
+  election, restarts; unbounded length, any cluster size) of a cluster with static membership, under the
+  environment assumptions `envB` only: nobody forges grants or AppendEntries, node id 0 does not exist, every
+  tally is taken against the configured voter list.  Proved by the inductive invariant `Inv`
+  (Lemmas/ElectInv.lean, preserved by all 16 step kinds: `inv_step`) and `quorum_intersect`.
+* `no_two_leaders_same_term` — the same in terms of roles.
 * `tally_counts_all_voters` — F4 refuted: a win needs a strict majority of *all* peer ids the transport reports,
   and the real transport reports every configured voter (correspondence kind `svr`).
+* Outside this theorem: changing membership (C26 / F5), and a node restarted with a configuration file that
+  no longer matches the cluster (F25, C28) — both break the hypothesis "tally against the configured voters".
 -/
 namespace DEngine.C01
 open DEngine.Elect
@@ -55,40 +61,28 @@ def envB (V : List Nat) (c : Cluster) : Label → Bool
   | .start p => p != 0
   | .scripted _ r => !isGrant r
   | .finish p _ => membStaticB V p (c.proc p).memb
-  | .restart p => !(c.proc p).startLearner
-  | _ => true
-
-/-- the three excluded triggers (decidable) -/
-def noTriggerB (c : Cluster) : Label → Bool
-  | .stepDown _ => false                                               -- F1
-  | .crash _ => false                                                  -- F2
-  | .finish p _ => !(c.proc p).memb.isSingleNodeCluster || (c.proc p).memb.voters.isEmpty   -- F3
   | _ => true
 
 def traceAll (P : Cluster → Label → Bool) : Cluster → List Label → Bool
   | _, [] => true
   | c, l :: ls => P c l && traceAll P (step c l) ls
 
-theorem membGood_of (V : List Nat) (p : Nat) (m : Memb) (h : membStaticB V p m = true)
-    (hs : (!m.isSingleNodeCluster || m.voters.isEmpty) = true) : MembGood V p m := by
+theorem membGood_of (V : List Nat) (p : Nat) (m : Memb) (h : membStaticB V p m = true) : MembGood V p m := by
   simp only [membStaticB, Bool.and_eq_true, decide_eq_true_eq, List.all_eq_true, beq_iff_eq, bne_iff_ne,
     List.contains_iff_mem] at h
   obtain ⟨⟨⟨h1, h2⟩, h3⟩, h4⟩ := h
-  refine ⟨h1, h2, fun j hj => h3 j hj, h4, fun hsingle => ?_⟩
-  simp only [hsingle, Bool.not_true, Bool.false_or, List.isEmpty_iff] at hs
-  exact hs
+  exact ⟨h1, h2, fun j hj => h3 j hj, h4⟩
 
-theorem safe_of (V : List Nat) (c : Cluster) (l : Label) (he : envB V c l = true) (hn : noTriggerB c l = true) :
-    Safe V c l := by
+theorem safe_of (V : List Nat) (c : Cluster) (l : Label) (he : envB V c l = true) : Safe V c l := by
   cases l with
   | voteReq p r => simpa [Safe, envB] using he
   | appendEntries p t l => simpa [Safe, envB] using he
   | start p => simpa [Safe, envB] using he
   | scripted p r => simpa [Safe, envB] using he
-  | finish p ok => exact membGood_of V _ _ he hn
-  | stepDown p => simp [noTriggerB] at hn
-  | crash p => simp [noTriggerB] at hn
-  | restart p => simpa [Safe, envB] using he
+  | finish p ok => exact membGood_of V _ _ he
+  | stepDown _ => trivial
+  | crash _ => trivial
+  | restart _ => trivial
   | heartbeat _ _ => trivial
   | timeout _ => trivial
   | deliver _ _ => trivial
@@ -99,11 +93,11 @@ theorem safe_of (V : List Nat) (c : Cluster) (l : Label) (he : envB V c l = true
   | stop _ => trivial
 
 theorem safeTrace_of (V : List Nat) : ∀ (ls : List Label) (c : Cluster),
-    traceAll (envB V) c ls = true → traceAll noTriggerB c ls = true → SafeTrace V c ls
-  | [], _, _, _ => trivial
-  | l :: ls, c, he, hn => by
-    simp only [traceAll, Bool.and_eq_true] at he hn
-    exact ⟨safe_of V c l he.1 hn.1, safeTrace_of V ls _ he.2 hn.2⟩
+    traceAll (envB V) c ls = true → SafeTrace V c ls
+  | [], _, _ => trivial
+  | l :: ls, c, he => by
+    simp only [traceAll, Bool.and_eq_true] at he
+    exact ⟨safe_of V c l he.1, safeTrace_of V ls _ he.2⟩
 
 theorem leadersOK_of_inv {V : List Nat} {c : Cluster} (h : Inv V c) : leadersOK (leaderPairs c) = true := by
   unfold leadersOK leaderPairs
@@ -115,23 +109,17 @@ theorem leadersOK_of_inv {V : List Nat} {c : Cluster} (h : Inv V c) : leadersOK 
     exact Or.inr (h.unique_leader ⟨Q, h1⟩ ⟨Q', h2⟩)
   · exact Or.inl ht
 
-/-- C01 at full strength: every schedule, the environment assumptions only. -/
-def ElectionSafetyStatement : Prop :=
-  ∀ (V : List Nat) (c0 : Cluster) (ls : List Label), Fresh c0 → traceAll (envB V) c0 ls = true →
-    leadersOK (leaderPairs (run c0 ls)) = true
-
-/-- **C01, partial**: at most one leader per term on every schedule that avoids the three triggers. -/
-theorem election_safety_partial (V : List Nat) (c0 : Cluster) (ls : List Label) (h0 : Fresh c0)
-    (he : traceAll (envB V) c0 ls = true) (hn : traceAll noTriggerB c0 ls = true) :
-    leadersOK (leaderPairs (run c0 ls)) = true :=
-  leadersOK_of_inv (inv_run ls (inv_of_fresh V c0 h0) (safeTrace_of V ls c0 he hn))
+/-- **C01 at full strength**: every schedule, the environment assumptions only. -/
+theorem election_safety (V : List Nat) (c0 : Cluster) (ls : List Label) (h0 : Fresh c0)
+    (he : traceAll (envB V) c0 ls = true) : leadersOK (leaderPairs (run c0 ls)) = true :=
+  leadersOK_of_inv (inv_run ls (inv_of_fresh V c0 h0) (safeTrace_of V ls c0 he))
 
 /-- the same in terms of roles: two nodes that are `Leader` with the same current term are the same node -/
 theorem no_two_leaders_same_term (V : List Nat) (c0 : Cluster) (ls : List Label) (h0 : Fresh c0)
-    (he : traceAll (envB V) c0 ls = true) (hn : traceAll noTriggerB c0 ls = true) (p q : Nat)
+    (he : traceAll (envB V) c0 ls = true) (p q : Nat)
     (hp : ((run c0 ls).proc p).node.role = .leader) (hq : ((run c0 ls).proc q).node.role = .leader)
     (ht : ((run c0 ls).proc p).node.term = ((run c0 ls).proc q).node.term) : p = q := by
-  have h := inv_run ls (inv_of_fresh V c0 h0) (safeTrace_of V ls c0 he hn)
+  have h := inv_run ls (inv_of_fresh V c0 h0) (safeTrace_of V ls c0 he)
   have h1 := h.r p hp
   have h2 := h.r q hq
   rw [ht] at h1
@@ -172,39 +160,22 @@ def c3expanded : Cluster :=
 def f3Trace : List Label :=
   [.timeout 2, .start 2, .deliver 2 3, .finish 2 true, .timeout 1, .start 1, .finish 1 true]
 
-theorem f1_two_leaders : leaderPairs (run c3 f1Trace) = [(3, 2), (1, 2)] := by decide
-theorem f2_two_leaders : leaderPairs (run c3 f2Trace) = [(3, 2), (1, 2)] := by decide
-theorem f3_two_leaders : leaderPairs (run c3expanded f3Trace) = [(1, 2), (2, 2)] := by decide
+/-- regressions: on the fixed code the three former witness schedules elect one leader per term -/
+theorem f1_regression : leaderPairs (run c3 f1Trace) = [(1, 2)] := by decide
+theorem f2_regression : leaderPairs (run c3 f2Trace) = [(1, 2)] := by decide
+theorem f3_regression : leaderPairs (run c3expanded f3Trace) = [(2, 2)] := by decide
 
-/-- **The code as it is violates C01** — F1 (`BecomeFollower` resets the vote without a term change). -/
-theorem election_safety_false_F1 : ¬ ElectionSafetyStatement := by
-  intro h
-  have := h [1, 2, 3] c3 f1Trace (fresh_freshCluster _ _) (by decide)
-  rw [f1_two_leaders] at this
-  revert this; decide
-
-/-- **The code as it is violates C01** — F2 (hard state saved only in `Drop for Raft`). -/
-theorem election_safety_false_F2 : ¬ ElectionSafetyStatement := by
-  intro h
-  have := h [1, 2, 3] c3 f2Trace (fresh_freshCluster _ _) (by decide)
-  rw [f2_two_leaders] at this
-  revert this; decide
-
-/-- **The code as it is violates C01** — F3 (`is_single_node_cluster` = initial size 1, after expansion). -/
-theorem election_safety_false_F3 : ¬ ElectionSafetyStatement := by
-  intro h
-  have := h [1, 2, 3] c3expanded f3Trace (fresh_freshCluster _ _) (by decide)
-  rw [f3_two_leaders] at this
-  revert this; decide
-
-/-- non-vacuity of the partial theorem: a schedule with a split vote, a lost reply, a duplicated request, a
-    graceful restart and two elections satisfies all hypotheses and elects leaders in terms 2 and 3. -/
+/-- non-vacuity of `election_safety`: the former witness schedules (a same-term step-down, a crash of a voter, an
+    expanded single-node start) and a schedule with a split vote, a lost reply, a duplicated request, a crash
+    inside an election and two elections all satisfy the hypotheses. -/
 def okTrace : List Label :=
   [.timeout 1, .timeout 2, .start 1, .start 2, .deliver 1 3, .deliver 2 3, .scripted 2 .err, .finish 2 true,
    .finish 1 true, .heartbeat 1 3, .voteReq 3 ⟨2, 2, 0, 0⟩, .stop 3, .restart 3, .higherTerm 1 3, .timeout 2,
-   .start 2, .deliver 2 1, .deliver 2 3, .finish 2 true, .noopCommitted 2]
-example : traceAll (envB [1, 2, 3]) c3 okTrace = true ∧ traceAll noTriggerB c3 okTrace = true ∧
-    leaderPairs (run c3 okTrace) = [(2, 3), (1, 2)] := by decide
+   .start 2, .deliver 2 1, .deliver 2 3, .finish 2 true, .noopCommitted 2, .timeout 3, .start 3, .crash 3,
+   .restart 3, .stepDown 2]
+example : traceAll (envB [1, 2, 3]) c3 okTrace = true ∧ leaderPairs (run c3 okTrace) = [(2, 3), (1, 2)] ∧
+    traceAll (envB [1, 2, 3]) c3 f1Trace = true ∧ traceAll (envB [1, 2, 3]) c3 f2Trace = true ∧
+    traceAll (envB [1, 2, 3]) c3expanded f3Trace = true := by decide
 
 /-! ### F4 refuted -/
 
